@@ -29,14 +29,18 @@ def mc_cfg(family, cands, max_ballots, max_w, with_half=False, invariants=MC_INV
 
 
 def model_check(res, pid, family, cands, max_ballots, max_w, with_half=False, invariants=MC_INVARIANTS, props=MC_PROPS,
-                name=None, coverage=True, emit=None):
+                name=None, coverage=True, emit=None, simulate=None):
     name = name or "mc_%s" % family
     wd = os.path.join(OUT, pid, name)
     os.makedirs(wd, exist_ok=True)
     env = {"EMIT_FILE": emit} if emit else {}
     inv = list(invariants) + (["Emit"] if emit else [])
-    r = run_tlc("MC_Election", mc_cfg(family, cands, max_ballots, max_w, with_half, inv, props), wd, env=env, coverage=coverage)
-    res.add_tlc("%s %dc/<=%db/w<=%d%s" % (family, len(cands), max_ballots, max_w, "+halves" if with_half else ""), r)
+    if simulate:      # random walks through a model too large to enumerate (`tlc -simulate`): invariants only, no liveness
+        r = run_tlc("MC_Election", mc_cfg(family, cands, max_ballots, max_w, with_half, inv, []), wd, env=env, coverage=False,
+                    simulate=simulate, workers=8, timeout=3600)
+    else:
+        r = run_tlc("MC_Election", mc_cfg(family, cands, max_ballots, max_w, with_half, inv, props), wd, env=env, coverage=coverage)
+    res.add_tlc("%s%s %dc/<=%db/w<=%d%s" % ("simulate " if simulate else "", family, len(cands), max_ballots, max_w, "+halves" if with_half else ""), r)
     if r["hard"]:
         raise Machinery("TLC failed in %s: %s" % (name, tlc_error_excerpt(r["out"])))
     if r["violated"]:
@@ -317,7 +321,7 @@ def standard_run(pid, tier, seed, replay, mc_runs, corpus_fn, nontrivial, rule_t
         for i, mc in enumerate(mc_runs[tier]):
             model_check(res, pid, mc["family"], mc.get("cands", ["A", "B", "C"]), mc["max_ballots"], mc["max_w"],
                         with_half=mc.get("with_half", False), invariants=mc.get("invariants", ALL_MC_INV),
-                        props=mc.get("props", ALL_MC_PROPS), name="mc%d_%s" % (i, mc["family"]))
+                        props=mc.get("props", ALL_MC_PROPS), name="mc%d_%s" % (i, mc["family"]), simulate=mc.get("simulate"))
         for i, r3 in enumerate((role3 or {}).get(tier, [])):
             behaviour_set_equality(res, pid, r3["family"], r3.get("cands", ["A", "B", "C"]), r3["max_ballots"], r3["max_w"],
                                    with_half=r3.get("with_half", False), name="role3_%d_%s" % (i, r3["family"]))
